@@ -80,13 +80,16 @@ impl BigInt {
         unimplemented!()
     }
 
-    /// A-float-log: over-estimate of the number of digits
+    /// A-float-log: 1 + floor(bits * ln 2 / ln base) computed in f64 is an over-estimate of the number of digits of a
+    /// non-negative value, by at most two
     #[verifier::external_body]
     pub fn size_in_base(&self, base: u8) -> (r: usize)
         requires
             base >= 2,
         ensures
             r >= 1,
+            self@ >= 0 ==> vstd::arithmetic::power::pow(base as int, r as nat) > self@,
+            self@ >= 0 && r > 3 ==> vstd::arithmetic::power::pow(base as int, (r - 3) as nat) <= self@,
     {
         unimplemented!()
     }
